@@ -189,6 +189,24 @@ def d_wideconst(s):
     return {'ins': {'a': a}, 'outs': {'q': q, 'o': o}}
 
 
+def new_system(dname):
+    """the system a design is built in; designs named '... CLOCK_50' use a board-style clock driver name instead of the default 'clk'"""
+    s = py4hw.HWSystem()
+    if 'CLOCK_50' in dname:
+        s.clockDriver = py4hw.ClockDriver('CLOCK_50', 50E6, 0, wire=s.wire('CLOCK_50'))
+    return s
+
+
+def d_regs_en(s):
+    """registers with enable (shared module Reg8E) and an adder: the same design is built on the default clock and on CLOCK_50"""
+    a, e = W(s, 'a', 8), W(s, 'e', 1)
+    q0, q1, t = W(s, 'q0', 8), W(s, 'q1', 8), W(s, 't', 8)
+    Reg(s, 'r0', a, q0, enable=e)
+    py4hw.Add(s, 'add', q0, a, t)
+    Reg(s, 'r1', t, q1, enable=e)
+    return {'ins': {'a': a, 'e': e}, 'outs': {'q1': q1}}
+
+
 def d_twin(mod):
     def build(s):
         import importlib
@@ -202,6 +220,7 @@ def d_twin(mod):
 
 DESIGNS = {'structural': d_struct, 'hierarchy': d_hier, 'behavioural leaves': d_behav, 'constructor constants k=3': d_const(3),
            'constructor constants k=5': d_const(5),
+           'registers with enable, default clock': d_regs_en, 'registers with enable, clock named CLOCK_50': d_regs_en,
            'behavioural block with bool-initialised state flags': d_flags, 'constants beyond 32 bits': d_wideconst,
            'same-named behavioural classes, module A': d_twin('a'), 'same-named behavioural classes, module B': d_twin('b')}
 
@@ -209,7 +228,7 @@ DESIGNS = {'structural': d_struct, 'hierarchy': d_hier, 'behavioural leaves': d_
 def ref_text(dname):
     """text of a whole-hierarchy request for the design (used from a fresh interpreter, see isolation_task)"""
     with quiet():
-        s = py4hw.HWSystem()
+        s = new_system(dname)
         box, ins, outs, extra = wrap_in_box(DESIGNS[dname], 'seq')(s)
     return gen('H', box, {})
 
@@ -230,7 +249,7 @@ def isolation_task(p, cfg, rec):
     boxes = {}
     with quiet():
         for dn in names:
-            s = py4hw.HWSystem()
+            s = new_system(dn)
             boxes[dn] = wrap_in_box(DESIGNS[dn], 'seq')(s)[0]
     refs = {}
     for dn in names:
@@ -428,7 +447,8 @@ def equivalent_texts(p, label, t1, t2, top=None):
         a, b = elab.Sim(d1, ins, S), elab.Sim(d2, ins, S)
         conds = [a.outputs()[o] != b.outputs()[o] for o in d1.outputs]
         if d1.seq_blocks or d2.seq_blocks:
-            n1, n2 = a.step(), b.step()
+            ck = 'CLOCK_50' if 'CLOCK_50' in d1.inputs else 'clk'
+            n1, n2 = a.step(ck), b.step(ck)
             conds += [n1[k] != n2[k] for k in n1]
         p.prove('%s: outputs and next state equal for all inputs and states' % label, z3.Or(*conds) if conds else z3.BoolVal(False),
                 inputs={**{'in:' + k: v for k, v in ins.items()}, **{'st:' + k: v for k, v in S.items()}})
@@ -441,7 +461,7 @@ def seq_task(p, cfg, rec):
     dname, seq = cfg['design'], cfg['seq']
     wrapped = cfg.get('build') or wrap_in_box(DESIGNS[dname], 'seq')
     with quiet():
-        s = py4hw.HWSystem()
+        s = new_system(dname)
         try:
             box, ins, outs, extra = wrapped(s)
         except Exception as e:
@@ -503,7 +523,7 @@ def seq_task(p, cfg, rec):
     p.structural('same set of wires and attributes before and after', sorted(before) == sorted(after))
     def replay(values):
         with quiet():
-            s2 = py4hw.HWSystem()
+            s2 = new_system(dname)
             box2, ins2, outs2, extra2 = wrapped(s2)
         a, _ = step_terms(s2, ins2, values)
         g2 = {}
@@ -592,6 +612,8 @@ def tasks_for(tier):
     t.append(('sub-block modules requested from different ancestors', ancestor_task, {}))
     k3, k5 = 'constructor constants k=3', 'constructor constants k=5'
     inter = [[(k3, 'H'), (k5, 'H')], [(k5, 'H'), (k3, 'H'), (k5, 'h'), (k3, 'h')], [('behavioural leaves', 'H'), (k5, 'H'), ('structural', 'H'), (k3, 'H')]]
+    cA, cB = 'registers with enable, default clock', 'registers with enable, clock named CLOCK_50'
+    inter += [[(cA, 'H'), (cB, 'H')], [(cB, 'H'), (cA, 'H'), (cB, 'h')]]
     tA, tB = 'same-named behavioural classes, module A', 'same-named behavioural classes, module B'
     inter += [[(tA, 'H'), (tB, 'H')], [(tB, 'H'), (tA, 'H'), (tB, 'h')]]
     if not quick:
